@@ -14,6 +14,10 @@ enum Evt<E> {
     LimItem(usize, usize),
     LimEnd(usize),
     LimPending(usize),
+    /// the stage polled its input / its limit stream again after that stream
+    /// had returned `Ready(None)` (forbidden by the `Stream` contract)
+    SrcPolledAfterEnd(usize),
+    LimPolledAfterEnd(usize),
 }
 
 type Log<E> = Rc<RefCell<Vec<Evt<E>>>>;
@@ -77,14 +81,21 @@ struct Tap<E: El, I: Item<E>> {
     inner: BoxS<I>,
     stage: usize,
     log: Log<E>,
+    ended: bool,
 }
 
 impl<E: El, I: Item<E>> Stream for Tap<E, I> {
     type Item = I;
     fn poll_next(self: Pin<&mut Self>, cx: &mut Context<'_>) -> Poll<Option<I>> {
         let this = self.get_mut();
+        if this.ended {
+            // behave like a fused stream, but report the misuse
+            this.log.borrow_mut().push(Evt::SrcPolledAfterEnd(this.stage));
+            return Poll::Ready(None);
+        }
         this.log.borrow_mut().push(Evt::SrcPolled(this.stage));
         let r = this.inner.as_mut().poll_next(cx);
+        this.ended = matches!(r, Poll::Ready(None));
         let e = match &r {
             Poll::Ready(Some(i)) => Evt::SrcItem(this.stage, i.to_vec()),
             Poll::Ready(None) => Evt::SrcEnd(this.stage),
@@ -99,14 +110,20 @@ struct LimTap<E: El> {
     inner: LimS,
     stage: usize,
     log: Log<E>,
+    ended: bool,
 }
 
 impl<E: El> Stream for LimTap<E> {
     type Item = usize;
     fn poll_next(self: Pin<&mut Self>, cx: &mut Context<'_>) -> Poll<Option<usize>> {
         let this = self.get_mut();
+        if this.ended {
+            this.log.borrow_mut().push(Evt::LimPolledAfterEnd(this.stage));
+            return Poll::Ready(None);
+        }
         this.log.borrow_mut().push(Evt::LimPolled(this.stage));
         let r = this.inner.as_mut().poll_next(cx);
+        this.ended = matches!(r, Poll::Ready(None));
         let e = match &r {
             Poll::Ready(Some(v)) => Evt::LimItem(this.stage, *v),
             Poll::Ready(None) => Evt::LimEnd(this.stage),
@@ -220,7 +237,7 @@ fn make_limit<E: El>(src: LimSrc, stage: usize, obs_init: u8, log: &Log<E>) -> (
             (Box::pin(QueueStream(q.clone())), LimCtl::Queue(q))
         }
     };
-    (Box::pin(LimTap { inner, stage, log: log.clone() }), ctl)
+    (Box::pin(LimTap { inner, stage, log: log.clone(), ended: false }), ctl)
 }
 
 /// A purely dynamic adapter kept as a value so the next stage can be built on
